@@ -339,6 +339,19 @@ def main(tier, seed, replay=None):
                 rep.violation(sig, '%s (%s) route %s: %s' % (e['kind'], e['variant'], e['steps'], why[:500]), {'op': 'route', 'kind': e['kind'], 'variant': e['variant'], 'steps': e['steps'], 'lazy0': e['lazy0'], 'obs': e['obs']})
             else:
                 rep.violation('vector:%s' % e['variant'], 'to_dict(meta=) vector map (%s): %s' % (e['variant'], why[:300]), {'op': 'vector', 'variant': e['variant']})
+    if not replay:
+        from vlib import negative_controls
+        def c_payload(e):
+            if e['op'] == 'route' and e['obs']['out'] == 'restored' and e['obs']['payload'] == 'same':
+                e['obs']['payload'] = 'differs in: data'
+                return True
+        def c_reject(e):
+            if e['op'] == 'route' and e['obs']['out'] == 'rejected':
+                e['obs']['out'] = 'restored'
+                e['obs']['payload'] = 'same'
+                e['obs']['follow'] = 'same'
+                return True
+        rep.cov['parts']['negative_controls_rejected'] = negative_controls('TraceSerialize', 'TraceSerialize.cfg', traces, [('restored payload differs', c_payload), ('restored where the route must be rejected', c_reject)], timeout=900)
     if any((not a) and not rj for a, rj in zip(acc, validate_traces.last_rejects)):
         raise Machinery('serialisation trace neither accepted nor rejected')
     rep.cov['states'] += sum(x.distinct for x in res)
